@@ -5,6 +5,8 @@
 //verif:cover VerifC16List delimiter full-scan-multi-page prefix-with-slash
 //verif:assume operation histories: programs of 3 (thorough 4) operations out of {put, create-if-absent, delete, get, has} over the keys {a/k, ab/k, a/kk, k} (path components that are prefixes of one another) with symbolic one-byte contents, checked step by step against a map model; afterwards Keys and a paged prefix listing (symbolic page size) against the model
 //verif:cover VerifC16Programs overwritten refused deleted-then-recreated
+//verif:assume file system faults: the file system accepts only the first k (0..3) bytes of a 4-byte object and then fails (disk full), or fails the close of the file; both source kinds (plain reader, WriterTo)
+//verif:cover VerifC16FsFaults short-write close-fails
 //verif:cover VerifC16Objects exclusive-refused overwrite deleted put-error-reported source-returns-data-with-eof
 //verif:cover VerifC16ExclusiveRace interleaved
 package localfs
@@ -359,4 +361,32 @@ func VerifC16Programs() {
 			vAssert(got[i] == wantA[i], "listing-in-lexicographic-order")
 		}
 	}
+}
+
+// VerifC16FsFaults: a Put whose file write is cut short by the file system, or whose close fails, reports an error.
+func VerifC16FsFaults() {
+	vBudget(100000000)
+	fs := newVFs()
+	st := vNewStore(fs)
+	ctx := context.Background()
+	mode := vChoose("fault", 2)
+	if mode == 0 {
+		vCover("short-write")
+		room := vInt("accepted", 0, 3)
+		fs.writeFault = func(name string, written int) int {
+			if room-written < 0 {
+				return 0
+			}
+			return room - written
+		}
+	} else {
+		vCover("close-fails")
+		fs.closeErr = errors.New("close: input/output error")
+	}
+	var src io.Reader = bytes.NewReader([]byte("0123")) // a WriterTo
+	if vChoose("sourceKind", 2) == 1 {
+		src = &vFailingSource{b: []byte("0123"), failAt: -1} // a plain reader
+	}
+	err := st.Put(ctx, "k", src, vChoose("exclusive", 2) == 1)
+	vAssert(err != nil, "write-cut-short-by-the-file-system-is-reported")
 }
